@@ -283,4 +283,197 @@ example :
                       d.hasDense (fun n => ⟨n = nLtotal || n = nTof, n = nTof⟩))
      | .error _ => none) = some (false, true, true) := by decide +kernel
 
+section binnedValue
+open ScnVerif.ConvertValue
+
+/-! ## Event mode ∘ value clause: every event gets the documented formula of ITS neutron -/
+
+/-- two worlds with the same constants and unit scales (they may differ in positions, times, energies) -/
+def SameConstants (W W' : World) : Prop :=
+  W.h = W'.h ∧ W.mn = W'.mn ∧ W.sT = W'.sT ∧ W.sL = W'.sL ∧ W.sA = W'.sA ∧ W.sE = W'.sE ∧ W.sEn = W'.sEn
+
+/-- the meaning of the kernels depends on the world only through the constants and unit scales -/
+theorem sem_congr {W W' : World} (h : SameConstants W W') : sem W = sem W' := by
+  obtain ⟨h1, h2, h3, h4, h5, h6, h7⟩ := h
+  cases W; cases W'
+  simp only at h1 h2 h3 h4 h5 h6 h7
+  subst h1 h2 h3 h4 h5 h6 h7
+  rfl
+
+/-- the kernel of a whole conversion in event mode: the derivation `d` that `convert` returns, evaluated on the
+event-side values (`coords` of the bin for dense coordinates, the event's own values for event coordinates).
+The same function converts the accompanying bin-edge coordinate (`c` = the edge's values). -/
+noncomputable def convKernel (W0 : World) (K : Name → CoordKind) (d : Term) (c g : Name → Val) : Val :=
+  d.eval (sem W0) (eventSide K g c)
+
+/-- one (event or edge, pixel) pair whose supplied values are the ground truth of a neutron `We` gets the documented
+value of the target for THAT neutron -/
+theorem convKernel_value (W0 We : World) (hv : We.Valid) (hc : SameConstants W0 We)
+    (P : Name → Bool) {o : Name} (ho : o ∈ origins) (t : Name) (s : Bool) {d : Term}
+    (h : convert T P o t s = .ok d) (K : Name → CoordKind) (c g : Name → Val)
+    (htruth : ∀ n, P n = true → eventSide K g c n = truth We s n)
+    (hfl : t = nEnergyTransfer → We.Flight) :
+    convKernel W0 K d c g = truth We s t := by
+  unfold convKernel
+  rw [sem_congr hc]
+  exact convert_value We hv P ho t s h _ htruth hfl
+
+
+/-- **`binned_convert_value`** — the C06 statement over ℝ, for every binned layout (any number of bins and events,
+empty bins included), every supported origin, every target, both scatter flags and every presence predicate:
+if `convert` returns the derivation `d`, and for every event `j` of every bin `i` the event's own event-coordinates
+together with the dense coordinates of its bin are the ground truth of that event's neutron `world i j` (a valid
+`World` with the constants of `W0`; for `energy_transfer` obeying the inelastic flight-time relation), then after the
+event-mode conversion `convertBinned (convKernel W0 K d)`
+
+1. EVERY event carries exactly the documented value of the target for ITS neutron (`truth (world i j) s t`:
+   λ = h t/(m_n L), E = m_n L²/(2t²), d = λ/(2 sin θ), Q = 4π sin θ/λ, ΔE = Ei − Ef, …) together with its own,
+   unchanged payload (weight, variance, other event coordinates), at its own position `j` of its own bin `i`;
+2. payload lists, bin sizes (also of empty bins), `begin`/`end` and the number of events are unchanged;
+3. masks / unrelated coordinates (`carried`) and the geometry are unchanged;
+4. the accompanying bin-edge coordinate is converted by the SAME function: entry (pixel `p`, edge `q`) of
+   `convertEdges (convKernel W0 K d)` is `convKernel W0 K d` of that edge and that pixel, hence — if the edge values
+   with the pixel's dense coordinates are the ground truth of a neutron `We` — the documented value for `We`. -/
+theorem binned_convert_value {D M : Type} (W0 : World)
+    (P : Name → Bool) {o : Name} (ho : o ∈ origins) (t : Name) (s : Bool) {d : Term}
+    (h : convert T P o t s = .ok d) (K : Name → CoordKind)
+    (b : Binned (Name → Val) D (Name → Val) M) (hwf : WellFormed b)
+    (world : Nat → Nat → World)
+    (hworld : ∀ i j, (world i j).Valid ∧ SameConstants W0 (world i j) ∧ (t = nEnergyTransfer → (world i j).Flight))
+    (htruth : ∀ i j es g (e : Event (Name → Val) D), b.bins[i]? = some es → b.geom[i]? = some g → es[j]? = some e →
+      ∀ n, P n = true → eventSide K g e.coord n = truth (world i j) s n) :
+    (∀ i j es g (e : Event (Name → Val) D), b.bins[i]? = some es → b.geom[i]? = some g → es[j]? = some e →
+        ((convertBinned (convKernel W0 K d) b).bins[i]?.bind (·[j]?))
+          = some (⟨truth (world i j) s t, e.payload⟩ : Event Val D)) ∧
+    ((convertBinned (convKernel W0 K d) b).bins.map (·.map (·.payload)) = b.bins.map (·.map (·.payload)) ∧
+      sizes (convertBinned (convKernel W0 K d) b).bins = sizes b.bins ∧
+      ranges 0 (sizes (convertBinned (convKernel W0 K d) b).bins) = ranges 0 (sizes b.bins) ∧
+      (buffer (convertBinned (convKernel W0 K d) b).bins).length = (buffer b.bins).length) ∧
+    ((convertBinned (convKernel W0 K d) b).carried = b.carried ∧ (convertBinned (convKernel W0 K d) b).geom = b.geom) ∧
+    (∀ (edges pg : List (Name → Val)) (p q : Nat) (c g : Name → Val), pg[p]? = some g → edges[q]? = some c →
+        ((convertEdges (convKernel W0 K d) edges pg)[p]?.bind (·[q]?)) = some (convKernel W0 K d c g) ∧
+        ∀ We : World, We.Valid → SameConstants W0 We → (t = nEnergyTransfer → We.Flight) →
+          (∀ n, P n = true → eventSide K g c n = truth We s n) → convKernel W0 K d c g = truth We s t) := by
+  refine ⟨?_, ?_, preserves_masks_coords _ b, ?_⟩
+  · intro i j es g e hes hg he
+    have hval := convKernel_value W0 (world i j) (hworld i j).1 (hworld i j).2.1 P ho t s h K e.coord g
+      (htruth i j es g e hes hg he) (hworld i j).2.2
+    have := preserves_order (convKernel W0 K d) b.bins b.geom hwf i j es g e hes hg he
+    simp only [convertBinned]
+    rw [this, hval]
+  · have h1 := preserves_weights_variances (convKernel W0 K d) b.bins b.geom hwf
+    have h2 := preserves_bin_sizes (convKernel W0 K d) b.bins b.geom hwf
+    exact ⟨h1, h2.1, h2.2.1, h2.2.2⟩
+  · intro edges pg p q c g hg hc
+    refine ⟨?_, ?_⟩
+    · rw [edges_same_function, hg, hc]
+    · intro We hv hcs hfl hte
+      exact convKernel_value W0 We hv hcs P ho t s h K c g hte hfl
+
+
+/-- the documented formulas spelled out for one event (or edge) of pixel geometry `g` whose neutron is `We`
+(the event-mode reading of `C02.convert_value_formulas`) -/
+theorem convKernel_formulas (W0 We : World) (hv : We.Valid) (hc : SameConstants W0 We)
+    (P : Name → Bool) {o : Name} (ho : o ∈ origins) (t : Name) (s : Bool) {d : Term}
+    (h : convert T P o t s = .ok d) (K : Name → CoordKind) (c g : Name → Val)
+    (htruth : ∀ n, P n = true → eventSide K g c n = truth We s n)
+    (hfl : t = nEnergyTransfer → We.Flight) :
+    let L : ℝ := if s then Props.C03.dist We.sample We.source + Props.C03.dist We.position We.sample
+                 else Props.C03.dist We.position We.source
+    let lam : ℝ := We.h * (We.t * We.sT) / (We.mn * (L * We.sL))
+    (t = nWavelength → convKernel W0 K d c g = .s (lam / We.sA)) ∧
+    (t = nEnergy → convKernel W0 K d c g = .s (We.mn * (L * We.sL) ^ 2 / (2 * (We.t * We.sT) ^ 2) / We.sE)) ∧
+    (t = nDspacing → convKernel W0 K d c g = .s (lam / (2 * Real.sin (V3R.angle We.ib We.sb / 2)) / We.sA)) ∧
+    (t = nQ → convKernel W0 K d c g = .s (4 * Real.pi * Real.sin (V3R.angle We.ib We.sb / 2) / (lam / We.sA))) ∧
+    (t = nEnergyTransfer → convKernel W0 K d c g = .s (We.Ei - We.Ef)) ∧
+    (t = nL1 → convKernel W0 K d c g = .s (Props.C03.dist We.sample We.source)) ∧
+    (t = nL2 → convKernel W0 K d c g = .s (Props.C03.dist We.position We.sample)) ∧
+    (t = nLtotal → convKernel W0 K d c g = .s L) ∧
+    (t = nTwoTheta → convKernel W0 K d c g = .s (V3R.angle We.ib We.sb)) := by
+  unfold convKernel
+  rw [sem_congr hc]
+  exact convert_value_formulas We hv P ho t s h _ htruth hfl
+
+/-! ### non-vacuity: two pixels (bins), the second bin empty, two events with different flight times -/
+
+/-- a valid world stays valid when only the flight time changes -/
+theorem valid_with_t {W : World} (hv : W.Valid) {t' : ℝ} (ht : 0 < t') : ({ W with t := t' } : World).Valid :=
+  ⟨hv.h, hv.mn, hv.sT, hv.sL, hv.sA, hv.sE, hv.sEn, ht, hv.ib, hv.sb, hv.direct, hv.s, hv.Ei, hv.Ef⟩
+
+/-- tof is an event coordinate, Ltotal a dense (per-pixel) coordinate -/
+def exK : Name → CoordKind := fun n => ⟨n = nLtotal, n = nTof⟩
+def exP : Name → Bool := fun n => n = nTof || n = nLtotal
+/-- event coordinates of an event with time of flight `x` -/
+def exEvent (x : ℝ) : Name → Val := fun n => if n = nTof then .s x else .bad
+/-- dense coordinates of a pixel with flight path `L` -/
+def exPixel (L : ℝ) : Name → Val := fun n => if n = nLtotal then .s L else .bad
+/-- bin 0: two events (tof 1 and 2, weights 10 and 20); bin 1: empty; both pixels 2 length units from the source -/
+def exBinned : Binned (Name → Val) Nat (Name → Val) Unit :=
+  ⟨[[⟨exEvent 1, 10⟩, ⟨exEvent 2, 20⟩], []], [exPixel 2, exPixel 2], ()⟩
+/-- the neutron of event `j` of bin 0: `exWorld` (L1 = L2 = 1) with flight time `j + 1` -/
+noncomputable def exWorldOf (_i j : Nat) : World := { exWorld with t := (j : ℝ) + 1 }
+
+example (d : Term) (h : convert T exP nTof nWavelength true = .ok d) :
+    -- event 0 and event 1 of bin 0 carry the wavelength of THEIR neutron, h t/(m_n L)/sA = 1·t/(2·2)/1, and their own weights
+    (convertBinned (convKernel exWorld exK d) exBinned).bins[0]?.bind (·[0]?) = some ⟨.s (1 / 4), 10⟩ ∧
+    (convertBinned (convKernel exWorld exK d) exBinned).bins[0]?.bind (·[1]?) = some ⟨.s (2 / 4), 20⟩ ∧
+    -- the empty bin stays empty, sizes and begin/end are those of the input
+    sizes (convertBinned (convKernel exWorld exK d) exBinned).bins = [2, 0] ∧
+    ranges 0 (sizes (convertBinned (convKernel exWorld exK d) exBinned).bins) = [(0, 2), (2, 2)] := by
+  have hv : ∀ i j, (exWorldOf i j).Valid ∧ SameConstants exWorld (exWorldOf i j) ∧
+      (nWavelength = nEnergyTransfer → (exWorldOf i j).Flight) :=
+    fun i j => ⟨valid_with_t exWorld_valid.1 (by positivity), ⟨rfl, rfl, rfl, rfl, rfl, rfl, rfl⟩, fun hne => by cases hne⟩
+  have ht : ∀ i j, (exWorldOf i j).t = (j : ℝ) + 1 := fun _ _ => rfl
+  have hL : ∀ i j, (exWorldOf i j).Ltot true = 2 := by
+    intro i j
+    have := exWorld_norms
+    show (exWorldOf i j).L1 + (exWorldOf i j).L2 = 2
+    have e1 : (exWorldOf i j).L1 = exWorld.L1 := rfl
+    have e2 : (exWorldOf i j).L2 = exWorld.L2 := rfl
+    rw [e1, e2, this.1, this.2]; norm_num
+  have hlam : ∀ i j, (exWorldOf i j).lam true / (exWorldOf i j).sA = ((j : ℝ) + 1) / 4 := by
+    intro i j
+    have e : (exWorldOf i j).lam true
+        = (exWorldOf i j).h * ((exWorldOf i j).t * (exWorldOf i j).sT) / ((exWorldOf i j).mn * ((exWorldOf i j).Ltot true * (exWorldOf i j).sL)) := rfl
+    rw [e, hL, ht]
+    show (1 : ℝ) * (((j : ℝ) + 1) * 1) / (2 * (2 * 1)) / 1 = ((j : ℝ) + 1) / 4
+    ring
+  have htruth : ∀ i j es g (e : Event (Name → Val) Nat), exBinned.bins[i]? = some es → exBinned.geom[i]? = some g →
+      es[j]? = some e → ∀ n, exP n = true → eventSide exK g e.coord n = truth (exWorldOf i j) true n := by
+    intro i j es g e hes hg he n hn
+    have hn' : n = nTof ∨ n = nLtotal := by simpa [exP] using hn
+    match i, j with
+    | 0, 0 | 0, 1 =>
+      simp [exBinned] at hes hg he
+      subst hes hg
+      simp at he; subst he
+      rcases hn' with rfl | rfl <;>
+        simp [eventSide, exK, exEvent, exPixel, truth, nTof, nLtotal, nPosition, nSourcePosition, nSamplePosition,
+          nIncidentBeam, nScatteredBeam, nL1, nL2, nTwoTheta, nIncidentEnergy, nFinalEnergy, hL, ht]
+      all_goals norm_num
+    | 0, j + 2 => simp [exBinned] at hes he; subst hes; simp at he
+    | 1, j => simp [exBinned] at hes he; subst hes; simp at he
+    | i + 2, j => simp [exBinned] at hes
+  obtain ⟨hev, ⟨_, hsz, hrg, _⟩, _, _⟩ :=
+    binned_convert_value exWorld exP (o := nTof) (by decide +kernel) nWavelength true h exK exBinned rfl exWorldOf hv htruth
+  have hw : ∀ i j, truth (exWorldOf i j) true nWavelength = .s (((j : ℝ) + 1) / 4) := by
+    intro i j
+    simp [truth, nWavelength, nPosition, nSourcePosition, nSamplePosition, nIncidentBeam, nScatteredBeam, nL1, nL2,
+      nLtotal, nTwoTheta, nIncidentEnergy, nFinalEnergy, nTof, hlam]
+  refine ⟨?_, ?_, ?_, ?_⟩
+  · rw [hev 0 0 _ _ ⟨exEvent 1, 10⟩ rfl rfl rfl, hw]; norm_num
+  · rw [hev 0 1 _ _ ⟨exEvent 2, 20⟩ rfl rfl rfl, hw]; norm_num
+  · rw [hsz]; rfl
+  · rw [hrg]; rfl
+
+/-- … and that conversion does succeed (the hypothesis of the example above is satisfiable) -/
+example : ∃ d, convert T exP nTof nWavelength true = .ok d := by
+  cases h : convert T exP nTof nWavelength true with
+  | ok d => exact ⟨d, rfl⟩
+  | error e =>
+    have : nodesOf (convert T exP nTof nWavelength true) ≠ none := by decide +kernel
+    simp [h, nodesOf] at this
+
+end binnedValue
+
 end ScnVerif.Props.C06
